@@ -276,6 +276,13 @@ def classify(ctx, lid, line, meta, impl, modelspec):
         ctx.disagreements.append({"function": "de", "case": line, "impl": impl, "model": modelspec})
         return
     model, spec = modelspec.split("##", 1)
+    if impl and "|ITERMISMATCH:" in impl:
+        # the harness drives every case also through nth / skip / step_by / last / count and compares
+        # with what plain next() yielded (records and error positions)
+        kind = impl.split("|ITERMISMATCH:", 1)[1]
+        ctx.violations.append({"case": line, "expected": spec, "actual": impl, "model": model,
+                               "what": "the items reached through %s differ from the items next() yields" % kind})
+        return
     ok, what = property_holds(impl, spec)
     if not ok:
         kc = known_class(line, impl, spec)
